@@ -13,6 +13,10 @@ The kernel half is an interface, not a model (see the header of `Model/Output.le
 its limit and then fails, `create_new` fails on an existing path.  That interface is the trusted base of this
 property; it is exercised on the real binary by the tie (`gen/c14.py`, `RLIMIT_FSIZE` sweep).
 
+Partial: "journal files, the Git repository and the configuration are only read" needs the loading phase, which is
+not modelled; `inputs_only_read_partial` states it with the loader as a parameter that leaves the file system alone
+(the tie checks exactly that hypothesis with before/after snapshots on the real binary).
+
 `dest_spec` is the key: one destination, whatever the chunking and the capacity, leaves exactly the first `limit`
 bytes of its content and reports success iff everything fitted.  The unpatched variant (`flushChecked = false`)
 does not satisfy this: `F4_witness`.
@@ -418,6 +422,59 @@ theorem failure_anatomy (cap : Nat) (plan : Plan) (fs : FS) (faults : FaultPlan)
       cases hfd : fs.file d.path with
       | none => rfl
       | some old => rw [many_existing cap faults pre fs _ _ hfd] at hnone; cases hnone
+
+/-- **existing_before_after.** The precise picture around a pre-existing destination `d`, when everything planned
+    before it is writable: the destinations before `d` are written completely and announced, the run then fails at
+    `d` with exit status 1, `d` keeps its bytes, and nothing after `d` is created or touched. -/
+theorem existing_before_after (cap : Nat) (plan : Plan) (fs : FS) (faults : FaultPlan)
+    (pre post : List Dest) (d : Dest) (old : Bytes)
+    (hplan : plan.dests = pre ++ d :: post) (hold : fs.file d.path = some old)
+    (hnodup : (pre.map (·.path)).Nodup) (hpre : ∀ x ∈ pre, fs.file x.path = none ∧ Good faults x) :
+    (run cap plan fs faults).exit = 1 ∧
+    (run cap plan fs faults).announced = pre.map (·.path) ∧
+    (∀ x ∈ pre, (run cap plan fs faults).fs.file x.path = some x.content) ∧
+    (run cap plan fs faults).fs.file d.path = some old ∧
+    (∀ p, p ∉ pre.map (·.path) → (run cap plan fs faults).fs.file p = fs.file p) := by
+  obtain ⟨e1, e2, e3⟩ := run_eq cap plan fs faults
+  have hok := many_success_conv cap faults pre fs hnodup hpre
+  obtain ⟨m1, _, m3⟩ := many_success cap faults pre fs hok
+  have hd : (destSpec (writeMany cap faults pre fs).fs (faults d.path) d).ok = false ∧
+      (destSpec (writeMany cap faults pre fs).fs (faults d.path) d).fs = (writeMany cap faults pre fs).fs := by
+    have := many_existing cap faults pre fs d.path old hold
+    unfold destSpec
+    cases hs : d.setupOk <;> simp [this]
+  have hall : writeMany cap faults plan.dests fs =
+      ⟨(writeMany cap faults pre fs).fs, pre.map (·.path), false⟩ := by
+    rw [hplan, writeMany_append]
+    simp only [hok, if_true]
+    rw [writeMany_cons]
+    simp [hd.1, hd.2, m1]
+  rw [e1, e2, e3, hall]
+  refine ⟨by simp, rfl, fun x hx => (m3 x hx).1, many_existing cap faults pre fs d.path old hold, ?_⟩
+  intro p hp
+  exact many_other cap faults pre fs p hp
+
+/-- **inputs_only_read_partial.**  Full statement (property text): *journal files, the Git repository and the
+    configuration are only read* by the whole program.  The loading phase (toml, winnow parser, walkdir, gix) is not
+    modelled; it is the parameter `Loader`.  Under the hypothesis that loading leaves the file system as it is —
+    which is what the before/after snapshots (size, mtime, sha256) of the tie check on the real binary for file,
+    fs and git input — the whole run changes nothing outside the planned destinations, and a failed load changes
+    nothing at all.  What is missing for the full statement: a model of the loaders' file-system effects. -/
+theorem inputs_only_read_partial (L : Loader) (hread : ∀ fs, (L.load fs).1 = fs)
+    (cap : Nat) (plan : Plan) (fs : FS) (faults : FaultPlan) :
+    (∀ p, p ∉ plan.dests.map (·.path) → (cliRun L cap plan fs faults).fs.file p = fs.file p) ∧
+    (∀ p old, fs.file p = some old → (cliRun L cap plan fs faults).fs.file p = some old) ∧
+    ((L.load fs).2 = false → (cliRun L cap plan fs faults).fs = fs ∧ (cliRun L cap plan fs faults).exit = 1 ∧
+        (cliRun L cap plan fs faults).announced = []) := by
+  unfold cliRun cliRunV
+  cases hl : (L.load fs).2 with
+  | false =>
+    simp only [if_true, hread]
+    exact ⟨fun _ _ => (by first | rfl | trivial), fun _ _ h => h, fun _ => ⟨(by first | rfl | trivial), (by first | rfl | trivial), (by first | rfl | trivial)⟩⟩
+  | true =>
+    simp only [Bool.true_eq_false, if_false, hread]
+    refine ⟨fun p hp => nothing_else cap plan fs faults p hp,
+            fun p old h => existing_preserved cap plan fs faults p old h, fun h => by cases h⟩
 
 /-- what a run can depend on: where, the whole content, and whether the reporter works -/
 def key (d : Dest) : Path × Bytes × Bool × Bool := (d.path, d.content, d.setupOk, d.bodyOk)
